@@ -52,7 +52,7 @@ var obsEvCalls = []string{"verify", "ev.json", "ev.instid", "ev.implid"}
 
 func (obsWorld) Gen(prop, tier string, idx int, r *Rng) *Trace {
 	var cfg ObsCfg
-	fams := []string{"p1", "p2", "p1", "p2", "xp2", "xp1", "xw", "xc"}
+	fams := []string{"p1", "p2", "p1", "p2", "xp2", "xp1", "xw", "xc", "xk"}
 	nClaims := r.Range(2, 5)
 	for i := 0; i < nClaims; i++ {
 		pf := fams[r.Intn(len(fams))]
@@ -774,6 +774,8 @@ func (obsWorld) Exec(prop string, t *Trace) *Result {
 			fam = "xp2"
 		case *XWClaims:
 			fam = "xw"
+		case *XKClaims:
+			fam = "xk"
 		}
 		repop := func(c psatoken.IClaims) string {
 			return safely(func() string {
